@@ -601,9 +601,22 @@ func ctxFirstWrapper(c *core.Ctx) {
 			probs = append(probs, "the first classifier applied to the transport error is "+strings.Join(order, ",")+", not wrapIfContextError")
 		}
 		// coded: either asError ok was true, or the last assignment is NewError
+		// the comma-ok of asError(<the error>) on this path, whatever the variable is called
+		okObjs := map[types.Object]bool{}
+		for _, st := range s.Steps {
+			if as, isAs := st.(*ast.AssignStmt); isAs && len(as.Lhs) == 2 && len(as.Rhs) == 1 {
+				if call, isCall := astx.Unparen(as.Rhs[0]).(*ast.CallExpr); isCall && len(call.Args) == 1 && inClass(call.Args[0]) {
+					if f := astx.CalleeFunc(info, call); f != nil && f.Name() == "asError" {
+						if o := astx.ObjOf(info, as.Lhs[1]); o != nil {
+							okObjs[o] = true
+						}
+					}
+				}
+			}
+		}
 		okTrue := false
 		for _, f := range s.Facts {
-			if id, ok := astx.Unparen(f.Expr).(*ast.Ident); ok && id.Name == "ok" && f.Pol {
+			if o := astx.ObjOf(info, astx.Unparen(f.Expr)); o != nil && okObjs[o] && f.Pol {
 				okTrue = true
 			}
 		}
@@ -611,8 +624,8 @@ func ctxFirstWrapper(c *core.Ctx) {
 			setArgCoded = true
 			// fallback must be under !ok
 			if !s.HasFact(func(e ast.Expr, pol bool) bool {
-				id, ok := astx.Unparen(e).(*ast.Ident)
-				return ok && id.Name == "ok" && !pol
+				o := astx.ObjOf(info, astx.Unparen(e))
+				return o != nil && okObjs[o] && !pol
 			}) {
 				probs = append(probs, "the unavailable fallback overwrites an error that may already be coded")
 			}
